@@ -44,7 +44,7 @@ macro_rules! live_layout {
             }
             /// thorough: the by-reference wrapper inside a live decoder
             #[kani::proof]
-            pub fn live_c03_t_c09_t_c10_t_c11_t_c15_t_c16_t_c17_q_anyref_decoder_after_history() {
+            pub fn live_c03_t_c09_t_c10_t_c11_t_c15_t_c16_t_anyref_decoder_after_history() {
                 let a = AnyLayout::$ty($ty);
                 live_check(concat!("&AnyLayout::", stringify!($ty)), &a, &$ty);
             }
